@@ -3,6 +3,7 @@ is derived in the library and in each tool, plus e2fsck's own bypasses.  DESIGN.
 from vlib import tree as T
 from vlib import effects, problems
 from vlib.rulelib import *
+from vlib.rulelib import _flag_family
 from vlib.rulelib import _positive_macros
 from vlib.engine import Broken, line_path, switch_cases
 
@@ -120,12 +121,21 @@ def run(world, rep, tier, only=None):
                "second argument of %s is %s" % (n.text()[:50], T.pp(a1)))
     # no other store adds a write mode to open_flags in unix_open
     o2 = lib.fn("ext2fs_open2")
-    intro = introductions(o2, "IO_FLAG_RW")
+    intro = [(o2, n, gl) for (n, gl) in introductions(o2, "IO_FLAG_RW")]
+    if not intro:
+        # the translation of the handle's flags into channel flags may live in a helper of its own
+        mo_ = calls_to(o2, "struct_io_manager.open")
+        fv = {T.path(arg(n, 1)) for n in mo_} - {None}
+        for st in o2.events("S"):
+            if T.path(st.ev["lhs"]) in fv:
+                for cc in T.calls(st.ev.get("rhs") or {}):
+                    for g_ in lib.lookup(cc.get("fn"), o2) if cc.get("fn") else []:
+                        intro += [(g_, n, gl) for (n, gl) in introductions(g_, "IO_FLAG_RW")]
     rep.floor("C13.a IO_FLAG_RW introductions in ext2fs_open2", len(intro), 1)
-    for (n, gl) in intro:
+    for (o2_, n, gl) in intro:
         for tg in gl:
-            g = all_guards(o2, n, tg)
-            rep.ob("C13.a", site(o2, "IO_FLAG_RW only under flags & EXT2_FLAG_RW"),
+            g = all_guards(o2_, n, tg)
+            rep.ob("C13.a", site(o2_, "IO_FLAG_RW only under flags & EXT2_FLAG_RW"),
                    has_bit_guard(g, "EXT2_FLAG_RW", True),
                    "guards: %s" % [("" if t else "!") + T.pp(a) for t, a in g])
     mopen = calls_to(o2, "struct_io_manager.open")
@@ -133,6 +143,25 @@ def run(world, rep, tier, only=None):
     for n in mopen:
         rep.ob("C13.a", site(o2, "manager->open receives io_flags"),
                T.path(arg(n, 1)) == "io_flags", "flags argument is %s" % T.pp(arg(n, 1)))
+
+    # ---------------------------------------------------------------- C13.g flag constants stay in their own field
+    # Whether a handle may write is one bit of fs->flags, whether e2fsck may is one bit of ctx->options, and so on.
+    # A constant of another family stored into (or tested in) such a field sets whatever bit shares its value:
+    # EXT2_FLAG2_USE_FAKE_TIME or-ed into fs->flags is EXT2_FLAG_RW.
+    seen_g, fns_g = set(), []
+    for pn in ("e2fsck", "debugfs", "tune2fs", "mke2fs", "resize2fs", "e2image", "e2undo", "dumpe2fs"):
+        for f in world.program(pn, plain=True).functions():
+            if f.key not in seen_g:
+                seen_g.add(f.key)
+                fns_g.append(f)
+    n_use, bad_g = flag_family_mismatches(fns_g)
+    rep.floor("C13.g uses of flag constants in flag fields", n_use, 800)
+    for (f, line, m, lf) in bad_g:
+        rep.ob("C13.g", site(f, "%s used in %s.%s@%d" % (m, lf[0], lf[1], line - f.raw.get("line", 0))), False,
+               "line %d: %s belongs to %s, not to %s.%s" % (line, m, sorted(FLAG_FAMILIES[_flag_family(m)]), lf[0], lf[1]))
+    if not bad_g:
+        rep.ob("C13.g", "*:*:flag constants are used in the field of their own family", True,
+               "%d uses of %d families examined, none in the home field of another family" % (n_use, len(FLAG_FAMILIES)))
 
     # ---------------------------------------------------------------- C13.b per tool
     # (program, file, function, macro, kind, parameter)
